@@ -34,6 +34,8 @@ CONFIGS = {
     "host-asan": C(HOST),
     "mid-debug-asan": C(MID, ndebug=0),
     "odd-asan": C(ODD),
+    "host-clang-asan": C(HOST, cc="clang-14", opt="-O2"),            # second compiler: different UBSan checks, different code generation
+    "small-O3-plain": C(SMALL, san="none", opt="-O3"),               # aggressive optimisation exploits UB the sanitizers may not flag
     "small-plain": C(SMALL, san="none", opt="-O2"),
     "small-ts-plain-vg": C(SMALL, caches=0, san="none", opt="-O1", vg=1),
     "host-nosse-plain": C(HOST, sse2=0, caches=0, san="none", opt="-O2"),
